@@ -4,3 +4,5 @@ import Ucfg.Props.C01
 import Ucfg.Props.C16
 import Ucfg.Props.C12
 import Ucfg.Props.C03
+import Ucfg.Props.C05
+import Ucfg.Props.C09
